@@ -1,3 +1,4 @@
 import Spec.Tables
 import Spec.Slice
 import Spec.Semantics
+import Spec.Printer
